@@ -28,3 +28,4 @@ TECHNIQUE = 'runtime oracle: group decisions recovered from the real SDoc stream
 LEVEL_TEXT = ('Every classic-algebra term up to 5 nodes (thorough 6) with a group and random larger ones are laid out by the real engine at widths aimed at exact fit; the check passes a layout only if '
               'some flat/broken assignment consistent with the emitted stream has every flat group\'s line within page and ribbon.')
 LEVEL_NOTE = 'Existential witness; trusts vlib/refsem.py; stats of flat/broken/exact-fit groups observed are in the evidence.'
+ANCHORS = ['layout.best_layout', 'layout.smart_fitting_predicate', 'layout.fast_fitting_predicate']
